@@ -74,17 +74,20 @@ Proof.
 Qed.
 
 (* ------------------------------------------------------------------ SOAP headers *)
+Lemma hdr_match_qualified ns name e : hdr_match ns name e = is_elt ns name e.
+Proof. reflexivity. Qed.
+
 Lemma last_elt_none ns name : forall l acc,
   (forall e, In e l -> is_elt ns name e = false) -> last_elt ns name l acc = acc.
 Proof.
-  induction l as [|e l IH]; intros acc H; [reflexivity|]. cbn [last_elt].
+  induction l as [|e l IH]; intros acc H; [reflexivity|]. cbn [last_elt]. rewrite hdr_match_qualified.
   rewrite (H e (or_introl eq_refl)). apply IH. intros e' He'. apply H. right. exact He'.
 Qed.
 Lemma last_elt_pick ns name : forall l1 e l2 acc, is_elt ns name e = true ->
   (forall e', In e' l2 -> is_elt ns name e' = false) -> last_elt ns name (l1 ++ e :: l2) acc = Some e.
 Proof.
   induction l1 as [|x l1 IH]; intros e l2 acc He H2; cbn [app last_elt].
-  - rewrite He. apply last_elt_none. exact H2.
+  - rewrite hdr_match_qualified, He. apply last_elt_none. exact H2.
   - apply IH; assumption.
 Qed.
 
